@@ -556,6 +556,23 @@ def _check_same_creator(prog, chk, X3):
             chk.violation(X3, 'creator-entry|%s' % f.qualname, locstr(f.node),
                           'creates a schema through the factory with something other than the '
                           'engine_schema it was asked for')
+    # a shared helper (`create_schema(db, schema)`) stands for each entry point that calls it with an engine_schema
+    # of its own (the hand-over rule below judges what they pass)
+    from .. import callgraph as _cgm
+    _cg = _cgm.get(prog)
+    _users = {f.key for f in prog.functions.values() if not f.is_pattern and f.body is not None and prog.in_repo(f.file)
+              and any(n.get('kind') == 'CallExpr' and prog.resolve_callee(f.tu, n)[1] == schemas.NS + 'make_schema_creator_validator'
+                      for n in walk(f.body))
+              and any(n.get('kind') == 'CXXMemberCallExpr' and strip(children(n)[0]).get('name') == 'create'
+                      for n in walk(f.body))}
+    for g in prog.functions.values():
+        if g.is_pattern or g.body is None or not prog.in_repo(g.file) or g.key in _users:
+            continue
+        if not any('engine_schema' in (p.get('type') or '') for p in g.params):
+            continue
+        if any(t.key in _users for e in _cg.edges(g) for t in e.targets):
+            found += 1
+            chk.analysed(g)
     if found < 4:
         chk.fail_broken('X3: only %d creation entry points use the factory (expected >= 4: '
                         'on-disk and temporary, both generations)' % found)
